@@ -155,3 +155,26 @@ func (ld *Loader) evalType(pkgPath string, text string) types.Type {
 	}
 	return nil
 }
+
+// isInterfaceMethodKey: "pkgpath::(Iface).Method" where Iface is an interface type of a loaded package.
+func (ld *Loader) isInterfaceMethodKey(k string) bool {
+	i := strings.Index(k, "::(")
+	j := strings.Index(k, ").")
+	if i < 0 || j < i {
+		return false
+	}
+	t := ld.evalType(k[:i], k[i+3:j])
+	if t == nil {
+		return false
+	}
+	it, ok := t.Underlying().(*types.Interface)
+	if !ok {
+		return false
+	}
+	for m := 0; m < it.NumMethods(); m++ {
+		if it.Method(m).Name() == k[j+2:] {
+			return true
+		}
+	}
+	return false
+}
